@@ -20,6 +20,8 @@ func init() {
 			{Pkg: "wire", Entry: "VerifH09a", What: "RowDescription/DataRow well-formed; rejected row leaves no partial bytes",
 				Quick: map[string]int{"COLS": 2, "VLEN": 1}, Thorough: map[string]int{"COLS": 2, "VLEN": 2},
 				Witnesses: []string{"unencodable", "typed-null", "non-null-empty"}},
+			{Pkg: "wire", Entry: "VerifH02p", What: "ParameterDescription at the 16-bit boundaries: declared count matches the items",
+				Quick: map[string]int{}, Witnesses: []string{"beyond-int16", "protocol-maximum"}, MaxSteps: 40000000},
 			{Pkg: "wire", Entry: "VerifH06b", What: "whole-capture grammar monitor over extended-query histories",
 				Quick: map[string]int{"K": 2}, Thorough: map[string]int{"K": 3, "Q": 1},
 				Witnesses: []string{"error-then-more"}},
